@@ -75,7 +75,12 @@ static void prepare(pl::Instance &I, int prior, unsigned devid) {
     Bytes m = mode == 0 ? msg(0, devid) : mode == 1 ? msg(3, devid) : msg(6, devid);
     opn2_rt_systemExclusive(d, m.data(), m.size());
     if(prior >= 3) {
-        for(int ch = 0; ch < 3; ch++) { opn2_rt_controllerChange(d, (OPN2_UInt8)ch, 7, 90); opn2_rt_controllerChange(d, (OPN2_UInt8)ch, 11, 70); opn2_rt_controllerChange(d, (OPN2_UInt8)ch, 10, 20); opn2_rt_pitchBend(d, (OPN2_UInt8)ch, 9000); opn2_rt_patchChange(d, (OPN2_UInt8)ch, 1); }
+        for(int ch = 0; ch < 3; ch++) { opn2_rt_controllerChange(d, (OPN2_UInt8)ch, 7, 90); opn2_rt_controllerChange(d, (OPN2_UInt8)ch, 11, 70); opn2_rt_controllerChange(d, (OPN2_UInt8)ch, 10, 20); opn2_rt_pitchBend(d, (OPN2_UInt8)ch, 9000); opn2_rt_patchChange(d, (OPN2_UInt8)ch, 1);
+            // every other controller a mode switch has to bring back to its default: modulation, portamento, brightness, soft pedal, channel pressure, the bend range (RPN 0) and, last, an NRPN selection left open
+            opn2_rt_controllerChange(d, (OPN2_UInt8)ch, 1, 30); opn2_rt_controllerChange(d, (OPN2_UInt8)ch, 5, 40); opn2_rt_controllerChange(d, (OPN2_UInt8)ch, 65, 127); opn2_rt_controllerChange(d, (OPN2_UInt8)ch, 74, 50); opn2_rt_controllerChange(d, (OPN2_UInt8)ch, 67, 127);
+            opn2_rt_channelAfterTouch(d, (OPN2_UInt8)ch, 20);
+            opn2_rt_controllerChange(d, (OPN2_UInt8)ch, 101, 0); opn2_rt_controllerChange(d, (OPN2_UInt8)ch, 100, 0); opn2_rt_controllerChange(d, (OPN2_UInt8)ch, 6, 5); opn2_rt_controllerChange(d, (OPN2_UInt8)ch, 38, 10);
+            opn2_rt_controllerChange(d, (OPN2_UInt8)ch, 99, 1); opn2_rt_controllerChange(d, (OPN2_UInt8)ch, 98, 8); }
         opn2_rt_noteOn(d, 0, 60, 100);
         opn2_rt_controllerChange(d, 1, 64, 127); opn2_rt_noteOn(d, 1, 62, 90); opn2_rt_noteOff(d, 1, 62);
         opn2_rt_noteOn(d, 9, 40, 100);
@@ -85,6 +90,14 @@ static void prepare(pl::Instance &I, int prior, unsigned devid) {
 static const int NPRIOR = 10;
 
 static void snapshot(pl::Instance &I, std::string &out) { vu::Ser s; pl::ser_player(I, s); s.u64(I.tap.nwrites); for(auto &c : I.tap.chips) s.raw(c.regs, sizeof c.regs); out.swap(s.s); }
+
+// the controller values of one MIDI channel (everything a "controller reset" speaks about; bank select and program are selections, not controller values, and stay)
+static std::string controllers_of(const OPNMIDIplay::MIDIchannel &c) {
+    char b[512]; snprintf(b, sizeof b, "volume %u expression %u pan %u brightness %u bend %d bend-range %d/%d (%.9g) sustain %d soft %d modulation %u pressure %u poly-pressure-in-use %d portamento %u enable %d source %d rate %.9g vibrato speed %.9g depth %.9g delay %lld rpn-selection %u/%u nrpn %d",
+        c.volume, c.expression, c.panning, c.brightness, c.bend, c.bendsense_msb, c.bendsense_lsb, c.bendsense, (int)c.sustain, (int)c.softPedal, c.vibrato, c.aftertouch, (int)c.noteAfterTouchInUse, c.portamento, (int)c.portamentoEnable, (int)c.portamentoSource, c.portamentoRate,
+        c.vibspeed, c.vibdepth, (long long)c.vibdelay_us, c.lastmrpn, c.lastlrpn, (int)c.nrpn);
+    return b;
+}
 
 static void run_case(const Bytes &m, int prior, unsigned devid, en::CaseOut &o) {
     // one prepared instance per (prior, devid) per process, re-created after any call that changed it
@@ -129,6 +142,10 @@ static void run_case(const Bytes &m, int prior, unsigned devid, en::CaseOut &o) 
     }
     if(r.kind == R_GM_ON || r.kind == R_GM_OFF || r.kind == R_GS || r.kind == R_XG) {
         // controller reset
+        // differential form of "controller reset": every controller value of every channel equals that of an instance that received nothing but this message
+        if(!o.bad) { pl::Instance R; R.create(44100); opn2_setNumChips(R.dev, 1); opn2_openBankData(R.dev, g_bank.data(), (long)g_bank.size()); opn2_setDeviceIdentifier(R.dev, devid); opn2_rt_systemExclusive(R.dev, m.data(), m.size());
+            for(size_t ch = 0; ch < 16 && !o.bad; ch++) { std::string got = controllers_of(pp.m_midiChannels[ch]), want = controllers_of(R.play()->m_midiChannels[ch]);
+                if(got != want) o.fail("C19/effect/controller-reset", "mode switch accepted but the controllers of channel " + std::to_string(ch) + " are not those of a freshly reset channel: [" + got + "] expected [" + want + "]" + ctx); } }
         for(int ch = 0; ch < 3 && !o.bad; ch++) { const OPNMIDIplay::MIDIchannel &c = pp.m_midiChannels[(size_t)ch]; if(c.expression != 127 || c.bend != 0 || c.panning != 64 || c.sustain) { snprintf(b, sizeof b, "mode switch accepted but channel %d controllers were not reset (expression %u, bend %d, pan %u, sustain %d)", ch, c.expression, c.bend, c.panning, (int)c.sustain); o.fail("C19/effect/controller-reset", b + ctx); } }
     }
     o.nontrivial = true;
